@@ -17,11 +17,16 @@ if ! git -C $W apply $DST/patch.diff 2>$DST/apply.err; then echo "PATCH DOES NOT
 # unchanged kit build (cached per repo HEAD)
 H=$(git -C /repo rev-parse --short HEAD)
 BASE=/tmp/seedkit_base_$H
-if [ ! -s $BASE/lib/libmujoco.so ]; then
-  rm -rf /tmp/seedkit_base_*; mkdir -p $BASE
-  git -C /repo worktree add --detach $BASE/tree HEAD >/dev/null 2>&1
-  /tmp/seedkit/build_lib.sh $BASE/tree $BASE/lib > $BASE/build.log 2>&1
-fi
+(
+  flock 9
+  if [ ! -s $BASE/lib/libmujoco.so ] || [ $(stat -c %s $BASE/lib/libmujoco.so) -lt 1000000 ] || [ ! -d $BASE/tree/src ]; then
+    [ -d $BASE/tree ] && git -C /repo worktree remove --force $BASE/tree >/dev/null 2>&1; rm -rf $BASE   # older bases stay until the final clean-up (may be in use)
+    git -C /repo worktree prune
+    mkdir -p $BASE
+    git -C /repo worktree add --detach $BASE/tree HEAD >/dev/null 2>&1
+    [ -d $BASE/tree/src ] && /tmp/seedkit/build_lib.sh $BASE/tree $BASE/lib > $BASE/build.log 2>&1
+  fi
+) 9>/tmp/seedkit_base.lock
 TESTS=$(cd $W && /venv/bin/python -m pytest -q -p no:cacheprovider --timeout=900 --continue-on-collection-errors 2>&1 | tail -1)
 BUILD=ok
 /tmp/seedkit/build_lib.sh $W ${W}_lib > $DST/build_changed.log 2>&1 || BUILD=failed
